@@ -28,8 +28,11 @@ EXHAUSTIVE = {"flag": True, "scope": "all shapes 0..3 x 0..3 for every directed 
 ANCHOR_FUNCS = ["table:Table.__init__", "table:Table.__rshift__", "table:Table.__lshift__", "table:Table.T", "table:Table.__getitem__", "table:Table.__iter__"]
 REQUIRED_STRATA = {"recompute": 200, "structural": 200, "steps": 2000}
 
-OPS = [">>vector", ">>vector-wrong", ">>list", ">>dict", ">>dict-wrong", ">>table", ">>table-wrong", "<<row", "<<row-short", "<<row-long", "<<table",
+OPS = [">>vector", ">>vector-wrong", ">>list", ">>dict", ">>dict-wrong", ">>table", ">>table-wrong", "<<row", "<<row-short", "<<row-long", "<<table", "<<row-widen", ">>dict-own-column",
 	"rowslice", "rowmask", "T.T", "attr", "attr-wrong", "ragged-ctor", "attr-iterable", "setitem-table", "<<table-dupnames", ">>table-dupnames", "vector>>"]
+
+
+PURE_OPS = {">>vector", ">>list", ">>dict", ">>table", "<<row", "<<table", "rowslice", "rowmask", "T.T", ">>dict-own-column"}
 
 
 def mk(rng, r, c):
@@ -106,6 +109,19 @@ def run_structural(chk, spec):
 			return
 		exp = [list(x) for x in cols] + [list(newcol)] + ([list(newcol)] if op == ">>table" else [])
 		expect_cells(chk, spec, o.value, exp, ">> appends columns and leaves existing ones untouched", "existing-columns-changed-or-wrong")
+	elif op == ">>dict-own-column":
+		# t >> {new name: one of t's own columns}: the result gains a column, t keeps its cells and its names
+		if c == 0 or r == 0:
+			chk.skip("structural-no-columns")
+			return
+		j = spec["seed"] % c
+		o = call(lambda: t >> {"again": t.cols()[j]})
+		if not o.ok:
+			chk.fail(">> appends columns", f"structural/{op}/raises/{type(o.exc).__name__}", f"{spec!r} raised {o!r}")
+			return
+		expect_cells(chk, spec, o.value, [list(x) for x in cols] + [list(cols[j])], ">> appends columns and leaves existing ones untouched", "existing-columns-changed-or-wrong")
+		if isinstance(o.value, Table) and o.value.column_names() != names + ["again"]:
+			chk.fail(">> appends columns and leaves existing ones untouched", f"structural/{op}/names", f"{spec!r}: result names {o.value.column_names()!r}")
 	elif op in (">>vector-wrong", ">>dict-wrong", ">>table-wrong"):
 		if c == 0:
 			chk.skip("structural-no-columns-to-disagree-with")
@@ -118,7 +134,7 @@ def run_structural(chk, spec):
 		else:
 			o = call(lambda: t >> Table([Vector(bad, name="n")]))
 		rejected(chk, spec, o, t, before, op)
-	elif op in ("<<row", "<<row-short", "<<row-long", "<<table"):
+	elif op in ("<<row", "<<row-short", "<<row-long", "<<table", "<<row-widen"):
 		if c == 0:
 			chk.skip("structural-no-columns")
 			return
@@ -130,6 +146,23 @@ def run_structural(chk, spec):
 		if op == "<<row-long":
 			o = call(lambda: t << (row + [1]))
 			rejected(chk, spec, o, t, before, op)
+			return
+		if op == "<<row-widen":
+			# the appended row widens int columns to float: the cells already stored must stay equal to what they were (ints beyond 2**53 included)
+			big = [2 ** 53 + 1, -(2 ** 53) - 1, 10 ** 17 + 1, 3]
+			cols = [[rng.choice(big) if isinstance(x, int) and not isinstance(x, bool) else x for x in col] for col in cols]
+			t = Table([Vector(list(col), name=nm) for col, nm in zip(cols, names)])
+			before = M.snap_table(t)
+			row = [rng.choice([2.5, -0.5]) if any(isinstance(x, int) for x in col) else x for col, x in zip(cols, row)]
+			o = call(lambda: t << row)
+			exp = [list(col) + [x] for col, x in zip(cols, row)]
+			if o.ok and isinstance(o.value, Table):
+				got = tcells(o.value)
+				if len(got) != len(exp) or any(not M.eq_list(g, e) for g, e in zip(got, exp)):
+					chk.fail("<< appends rows to every column", "structural/<<row-widen/stored-cells-changed", f"{spec!r}: cells {short(got, 200)} vs model {short(exp, 200)}")
+				fail_rect(chk, o.value, "result", spec)
+			if M.snap_table(t) != before:
+				chk.fail("operations that return a new table leave their operand as it was", "structural/<<row-widen/operand-changed", f"{spec!r}")
 			return
 		if op == "<<row":
 			o = call(lambda: t << row)
@@ -307,8 +340,10 @@ def run_structural(chk, spec):
 				continue
 			o = call(f)
 			rejected(chk, dict(spec, ctor=label), o, None, None, label)
-	# the operand itself must still be a sound table
+	# the operand itself must still be a sound table, and operations that build a new table leave it as it was (cells AND names)
 	fail_rect(chk, t, "operand after " + op, spec)
+	if op in PURE_OPS and M.snap_table(t) != before:
+		chk.fail("operations that return a new table leave their operand as it was", f"structural/{op}/operand-changed", f"{spec!r}: {short(before, 200)} -> {short(M.snap_table(t), 200)}")
 
 
 def run_history(chk, spec):
